@@ -36,6 +36,8 @@ var c09MoreValues = []c09Value{
 	{"New.Example", "CNAME|New.Example"}, {"NOERROR;CNAME;New.Example", "CNAME|New.Example"},
 	// a number written with a leading zero is the same number
 	{"NOERROR;MX;010 mx.example", "MX|10 mx.example"},
+	// a typed rewrite with an empty value is not the value-less one
+	{"NOERROR;TXT;", "TXT|"},
 	// same priority, target and parameter count; one has a flag parameter (empty value) the other lacks
 	{"NOERROR;HTTPS;10 svc.example alpn=h2 no-default-alpn=", "HTTPS|10 svc.example alpn=h2 no-default-alpn="}, {"NOERROR;HTTPS;10 svc.example alpn=h2 port=8443", "HTTPS|10 svc.example alpn=h2 port=8443"},
 }
